@@ -125,15 +125,19 @@ impl notify::EventHandler for NotifyEventHandler {
 
                 for path in event.paths {
                     let paths = match event.kind {
+                        // Creating, removing or renaming an entry also changes
+                        // the content of its parent directory. A removed entry
+                        // must be named too, so that assets that tried to read
+                        // it are reloaded.
+                        notify::EventKind::Create(_)
+                        | notify::EventKind::Remove(_)
+                        | notify::EventKind::Modify(notify::event::ModifyKind::Name(_)) => {
+                            match path.parent() {
+                                Some(parent) => vec![&path, parent],
+                                None => vec![&*path],
+                            }
+                        }
                         notify::EventKind::Any | notify::EventKind::Modify(_) => vec![&*path],
-                        notify::EventKind::Create(_) => match path.parent() {
-                            Some(parent) => vec![&path, parent],
-                            None => vec![&*path],
-                        },
-                        notify::EventKind::Remove(_) => match path.parent() {
-                            Some(parent) => vec![parent],
-                            None => vec![],
-                        },
                         notify::EventKind::Access(_) | notify::EventKind::Other => return,
                     };
                     let ids = paths
